@@ -68,7 +68,8 @@ def flocq_leg(chk, prop_file, prop_module):
             chk.broken.append("Print Assumptions failed (layer B): " + last_error(aout))
             axioms = {}
         else:
-            axioms = parse_assumptions(aout)
+            if not aout.startswith("(cached for "):      # (a cached answer is vlib's parsed dictionary; there is no raw output to re-read)
+                axioms = parse_assumptions(aout)
             if set(axioms) != set(names):
                 ok = False
                 chk.broken.append("Print Assumptions (layer B): output does not cover every theorem of " + prop_file)
